@@ -174,7 +174,12 @@ func implCLI(env *Env, op Op) Result {
 		_ = os.MkdirAll(store, 0o755)
 		defer os.RemoveAll(store)
 	}
+	var stdin []byte
 	for i := 0; i+1 < len(files); i += 2 {
+		if string(files[i]) == "<stdin>" {
+			stdin = files[i+1] // what the process finds on standard input: no file of the tree
+			continue
+		}
 		p := filepath.Join(sb, string(files[i]))
 		_ = os.MkdirAll(filepath.Dir(p), 0o755)
 		var err error
@@ -194,7 +199,7 @@ func implCLI(env *Env, op Op) Result {
 			return Result{Status: "harness-error", Note: err.Error()}
 		}
 	}
-	c := runCLI(env, sb, nil, append([]string{"-l", "disabled"}, argv...)...)
+	c := runCLI(env, sb, stdin, append([]string{"-l", "disabled"}, argv...)...)
 	if c.timeout {
 		return Result{Status: "timeout"}
 	}
@@ -232,6 +237,9 @@ func implCLI(env *Env, op Op) Result {
 		return Result{Status: "ok", Out: append(out, []byte(strings.Join(same, ",")), []byte(strings.Join(diff, ",")))}
 	}
 	for i := 0; i+1 < len(files); i += 2 {
+		if string(files[i]) == "<stdin>" {
+			continue
+		}
 		now, err := os.ReadFile(filepath.Join(sb, string(files[i])))
 		if err != nil {
 			return Result{Status: "ok", Out: [][]byte{[]byte("file vanished: " + string(files[i]))}}
@@ -331,6 +339,9 @@ func invocationCases(r *rand.Rand, n int) []Case {
 		var ops []Op
 		for k := 0; k < 10; k++ {
 			cmd := pick(r, []string{"generate", "update", "compare", "format", "renumber", "copyright", "update", "compare"})
+			if k == 0 {
+				cmd = "generate" // one invocation per tree reads its program from standard input (below)
+			}
 			outGiven := chance(r, 0.5)
 			outV := pick(r, []string{"text", "github", "github", "GitHub", "json", "", "TEXT", "git hub"})
 			flags := pick(r, []string{"", "", "a", "a", "c", "ac", "a"})
@@ -365,8 +376,20 @@ func invocationCases(r *rand.Rand, n int) []Case {
 					pos = []string{pick(r, []string{b, stem, stem + ".yml", stem + ".", stem + ".txt", stem[:len(stem)/2], ".yaml", stem + ".yaml.bak", b + ".yaml"})}
 				}
 			}
-			if cmd == "generate" && len(pos) == 1 && pos[0] == "-" {
-				pos = []string{ra.arg}
+			var stdinEntry [][]byte
+			if cmd == "generate" && (k == 0 || (len(pos) == 1 && (pos[0] == "-" || chance(r, 0.25)))) {
+				// the program on standard input: an assembly file of the tree, a broken one, nothing
+				pos = []string{"-"}
+				prog := ct.t["regex-assembly/"+ra.arg+".ra"]
+				switch r.Intn(7) {
+				case 0:
+					prog = []byte("##!> include nosuchfile\n")
+				case 1:
+					prog = nil
+				case 2:
+					prog = []byte("##!> assemble\nab\n##!=>\ncd\n##!<\n(unbalanced\n")
+				}
+				stdinEntry = [][]byte{[]byte("<stdin>"), prog}
 			}
 			verGiven := cmd == "copyright" && chance(r, 0.8)
 			ver := pick(r, []string{"4.5.0", "v4.6.0-rc1", "4.7.0+build", "not.a.version", "", "4", "04.1", "4.5.0 "})
@@ -390,6 +413,7 @@ func invocationCases(r *rand.Rand, n int) []Case {
 			args = append(args, cfg...)
 			args = append(args, []byte(posArg))
 			args = append(args, files...)
+			args = append(args, stdinEntry...)
 			ops = append(ops, Op{"cli.run", args})
 		}
 		cases = append(cases, Case{Kind: "invocations", Ops: ops})
@@ -411,7 +435,7 @@ func prewarmJoins(p *Pair, env *Env, cfg [][]byte, files [][]byte) {
 	}
 	for i := 0; i+1 < len(files); i += 2 {
 		path := string(files[i])
-		if strings.HasPrefix(path, "regex-assembly/") && strings.HasSuffix(path, ".ra") {
+		if (strings.HasPrefix(path, "regex-assembly/") && strings.HasSuffix(path, ".ra")) || path == "<stdin>" {
 			args := append(append([][]byte{}, cfg...), files[i+1])
 			args = append(args, triples...)
 			p.Model(Op{"gen.run", args}, env.timeout)
